@@ -154,6 +154,10 @@ def expand(fn, call, is_method, uid):
             prefix.append(ast.Assign(targets=[ast.Name(id=p, ctx=ast.Store())], value=copy.deepcopy(v)))
     sub = _Subst(mapping)
     body = [sub.visit(s) for s in body]
+    if uses_return_value and body and isinstance(body[-1], ast.Assign) and isinstance(body[-1].targets[0], ast.Name) \
+            and body[-1].targets[0].id == ret and sum(1 for s in body for n in ast.walk(s) if isinstance(n, ast.Name) and n.id == ret) == 1:
+        # single `result = e` as the last statement: hand e itself to the use site
+        return prefix + body[:-1], body[-1].value
     if not uses_return_value:
         body = [s for s in body if not (isinstance(s, ast.Assign) and isinstance(s.targets[0], ast.Name) and s.targets[0].id == ret
                                         and isinstance(s.value, ast.Constant) and s.value.value is None)]
@@ -281,7 +285,8 @@ class Inliner:
                                 if res is None:
                                     raise NoInline('no value')
                                 out.extend(pre)
-                                out.append(ast.copy_location(ast.Assign(targets=s.targets, value=res), s))
+                                if not (isinstance(res, ast.Name) and isinstance(s.targets[0], ast.Name) and res.id == s.targets[0].id):
+                                    out.append(ast.copy_location(ast.Assign(targets=s.targets, value=res), s))
                             elif form == 'return':
                                 out.extend(pre)
                                 out.append(ast.copy_location(ast.Return(value=res), s))
